@@ -209,3 +209,14 @@ func init() {
 		ruleOptsForward(c, r, c.anchored("C31", "ytypes/leaf.go", "ytypes/choice.go"), 13)
 	})
 }
+
+func init() {
+	register("C28", func(c *Ctx, r *Report) {
+		r.Decides("fieldTag returns only values in [1,2^29-1]\\[19000,19999] and never 1..1000; every hashed string is built from schema strings only; every message is checked for repeated field numbers before rendering (single render site) and identity values before being stored, a collision being an error; explicit key tags increase once per key; the key/list-member name clash guard compares the names that are emitted; the golden .proto corpus is well-formed.",
+			"absence of hash collisions for a given schema (a collision is now a generation error, not an invalid file); uniqueness of field names for schemas outside the corpus beyond the MakeNameUnique/clash-guard structure; validity under protoc.")
+		ruleTagInterval(c, r)
+		ruleTagPure(c, r)
+		ruleTagUniq(c, r)
+		ruleProtoCorpus(c, r)
+	})
+}
